@@ -19,7 +19,8 @@ def main():
     src = f"/tmp/seed/{prop}.out"
     existing = [int(d.split("-")[1]) for d in os.listdir(os.path.join(VERIF, "seeded")) if d.startswith(prop + "-")]
     nxt = max(existing, default=0) + 1
-    for k in ("1", "2", "3"):
+    only = sys.argv[3].split(",") if len(sys.argv) > 3 else ("1", "2", "3")   # optional: which of the three to import
+    for k in only:
         d = os.path.join(src, k)
         if not os.path.exists(os.path.join(d, "patch.diff")):
             print(prop, k, "no patch"); continue
